@@ -18,8 +18,16 @@ GEN = {
                  dict(MaxH=6, G=100, N=5, MaxInvalid=1, MaxLen=5, Tickets="FALSE", Weights="{1, 2}")],
 }
 SAMPLE = {"quick": 4000, "thorough": 60000}
-GT = {"quick": dict(MaxH=9, G=100, M=7, K=6, F=2, MaxLen=13),
-      "thorough": dict(MaxH=10, G=100, M=8, K=7, F=2, MaxLen=15)}
+# main chain 1..M with tickets from MainFrom on; side chain of K blocks after block F, every ticket placement
+GT = {"quick": [dict(MaxH=9, G=100, M=7, K=6, F=2, MaxLen=13, MainFrom=2),
+                dict(MaxH=9, G=100, M=6, K=3, F=5, MaxLen=9, MainFrom=5),
+                dict(MaxH=9, G=100, M=6, K=4, F=4, MaxLen=10, MainFrom=4)],
+      "thorough": [dict(MaxH=10, G=100, M=8, K=7, F=2, MaxLen=15, MainFrom=2),
+                   dict(MaxH=9, G=100, M=6, K=3, F=5, MaxLen=9, MainFrom=5),
+                   dict(MaxH=9, G=100, M=6, K=4, F=4, MaxLen=10, MainFrom=4),
+                   dict(MaxH=10, G=100, M=7, K=4, F=6, MaxLen=11, MainFrom=5),
+                   dict(MaxH=10, G=100, M=7, K=5, F=5, MaxLen=12, MainFrom=4),
+                   dict(MaxH=10, G=100, M=8, K=4, F=7, MaxLen=12, MainFrom=6)]}
 GT_SAMPLE = {"quick": 500, "thorough": 8000}
 # (P, LA, LB): common prefix, valid branch, branch with at most one invalid block
 FORK = {"quick": [(1, 2, 4), (2, 1, 3), (3, 0, 4), (4, 0, 3)],
@@ -47,18 +55,25 @@ def mc(wd, t):
 
 def mc_gt(wd, t, rnd):
     """ticket-density instance: model checking + scenario generation in one TLC run"""
-    cfg = os.path.join(wd, "MC_ChainGT.cfg")
-    write_cfg(cfg, "MCSpec", GT[t],
-              invariants=["QuiescentConsistent", "MicroEqualsBig", "StepsBounded", "DensityOnChain",
-                          "PrintScenario"],
-              properties=["TipNeverLower"])
-    rc, out = tlc("MC_ChainGT.tla", cfg, wd, workers=12, timeout=3000, heap="12g")
-    if not tlc_ok(out):
-        raise ToolError("MC_ChainGT: " + tlc_error_summary(out))
-    dist, gen_n = tlc_stats(out)
-    scns = printed(out, "SCN")
-    log("MC_ChainGT: %d distinct states, %d behaviours" % (dist, len(scns)))
-    return dist, gen_n, sample(scns, GT_SAMPLE[t], rnd)
+    dist = gen_n = 0
+    scns = []
+    for i, consts in enumerate(GT[t]):
+        cfg = os.path.join(wd, "MC_ChainGT_%d.cfg" % i)
+        write_cfg(cfg, "MCSpec", consts,
+                  invariants=["QuiescentConsistent", "MicroEqualsBig", "StepsBounded", "DensityOnChain",
+                              "PrintScenario"],
+                  properties=["TipNeverLower"])
+        rc, out = tlc("MC_ChainGT.tla", cfg, wd, workers=12, timeout=3000, heap="12g")
+        if not tlc_ok(out):
+            raise ToolError("MC_ChainGT: " + tlc_error_summary(out))
+        d, g = tlc_stats(out)
+        dist += d
+        gen_n += g
+        s = printed(out, "SCN")
+        # the dense instance is sampled; the straddling instances are small and kept whole
+        scns += sample(s, GT_SAMPLE[t], rnd) if i == 0 else sample(s, GT_SAMPLE[t] // 2, rnd)
+        log("MC_ChainGT instance %d: %d distinct states, %d behaviours" % (i, d, len(s)))
+    return dist, gen_n, scns
 
 
 def mc_fork(wd, t, rnd):
@@ -79,6 +94,51 @@ def mc_fork(wd, t, rnd):
         scns += printed(out, "SCN")
     log("MC_ChainFork: %d instances, %d distinct states, %d behaviours" % (len(FORK[t]), dist, len(scns)))
     return dist, gen_n, sample(scns, FORK_SAMPLE[t], rnd)
+
+
+def long_chain_leg(pid, t, wd, lscns, known, violations, known_hits):
+    """C05 beyond the retention window: economy scenarios with G of 2..3 and chains that wrap the window and the
+    block ring several times, run by the ledger harness and judged by LedgerTrace's C05 checks"""
+    import chk_ledger
+    import gen_ledger
+    if lscns is None:
+        lscns = gen_ledger.fork_choice_scenarios(seed(), 80 if t == "quick" else 2500)
+    spath = os.path.join(wd, "long_scenarios.jsonl")
+    with open(spath, "w") as f:
+        for s in lscns:
+            f.write(json.dumps(s) + "\n")
+    tpath = os.path.join(wd, "long_trace.ndjson")
+    stalled = chk_ledger.run_harness("ledger", spath, tpath)
+    cfg = os.path.join(wd, "LedgerTrace.cfg")
+    write_cfg(cfg, "TraceSpec", {}, invariants=["ReportBad"], postcondition="TraceDone")
+    txt = open(cfg).read().replace("CONSTANTS\n", "")
+    open(cfg, "w").write(txt)
+    lwd = os.path.join(wd, "long")
+    os.makedirs(lwd, exist_ok=True)
+    chunks, nev = split_trace(tpath, lwd, 6000)
+    bad, consumed = validate_traces("LedgerTrace.tla", cfg, chunks, wd, par=8)
+    aborted = sum(1 for ln in open(tpath) if '"ev":"Abort"' in ln)
+    mine = [b for b in bad if b["prop"] == pid]
+    log("long-chain leg: %d scenarios, %d events, %d divergences for %s (%d all properties), %d aborted"
+        % (len(lscns), consumed, len(mine), pid, len(bad), aborted))
+    by_scn = {}
+    for b in mine:
+        by_scn.setdefault(b["scn"], []).append(b)
+    for k, bs in sorted(by_scn.items()):
+        unmatched = []
+        for b in bs:
+            sig = dict(kind="trace", why=chk_ledger.norm_why(b["why"]), res=b["res"], cls="long-chain")
+            kf = match_known(pid, sig, known)
+            if kf:
+                known_hits.append(kf)
+            else:
+                unmatched.append(dict(sig, step=b["i"], detail=b["why"]))
+        if unmatched:
+            path = write_replay(pid, dict(property=pid, scenario=lscns[k], divergences=unmatched, seed=seed(), tier=t))
+            violations.append((unmatched[0], path))
+    if (aborted or stalled) and not violations:
+        raise ToolError("long-chain leg: %d scenarios aborted in the runner, %d stalled" % (aborted, len(stalled)))
+    return len(lscns), consumed
 
 
 def deep_scenarios(rnd, n, max_blocks=12, invalid_p=0.35, tickets=False):
@@ -147,12 +207,17 @@ def run(pid, t, replay=None):
     wd = workdir(pid)
     rnd = random.Random(seed())
     build_harness()
+    lscns = None
     if replay:
         with open(replay) as f:
             rp = json.load(f)
         scns = [rp["scenario"]]
         dist = gen_n = 0
         cov = {}
+        if "steps" in rp["scenario"]:
+            # a scenario of the long-chain leg (ledger harness)
+            lscns = scns
+            scns = [dict(blocks=[dict(id=1, parent=0, gt=False, w=2, ok=True)], order=[1])]
     else:
         dist, gen_n, cov = mc(wd, t)
         log("MC_Chain: %d distinct states, %d generated" % (dist, gen_n))
@@ -216,6 +281,9 @@ def run(pid, t, replay=None):
         by_scn.setdefault(b["scn"], []).append(b)
     violations = []
     known_hits = []
+    long_n = long_ev = 0
+    if pid == "C05":
+        long_n, long_ev = long_chain_leg(pid, t, wd, lscns, known, violations, known_hits)
     for k, lab in stalled:
         if pid == "C04":
             sig = dict(kind="stall", why="add_block did not return", scenario_class="")
@@ -250,6 +318,7 @@ def run(pid, t, replay=None):
         exhaustive=False,
         mc_instance=MC[t], gen_instances=GEN[t],
         action_counts={k: cov.get(k, 0) for k in ("Deliver", "MCUnwind", "MCWind", "MCUnNew", "MCRewind")},
+        long_chain_scenarios=long_n, long_chain_events=long_ev,
         divergences_this_property=len(mine), known_findings_matched=len(set(k["id"] for k in known_hits)),
         checker_cmd="tlc MC_Chain.tla (MC, GEN); harness/bin/chain; tlc ChainTrace.tla (TV)",
         trusted_base=["TLC 1.8.0", "harness projection (project.rs)", "builder nodes using Block::create"],
@@ -264,7 +333,10 @@ RULES = {
            "scenario containing at least one reorganisation (a block on a non-first branch delivered) ",
     "C04": "same scenarios; non-trivial = distinct scenario that contains an invalid block which is delivered "
            "after its parent (so that some add_block call is rejected after winding)",
-    "C05": "same scenarios; non-trivial = distinct scenario with at least two branches and at least one "
+    "C05": "same scenarios + ticket-density instances (dense main chain; main chains whose tickets start at the fork "
+           "point so that only the window straddling the fork is short) + a long-chain leg (ledger harness, genesis "
+           "period 2..3, chains wrapping window and block ring several times, judged by LedgerTrace's C05 checks); "
+           "non-trivial = distinct scenario with at least two branches and at least one "
            "out-of-order (orphan) delivery or weight difference between branches",
 }
 ASSUMPTIONS = [
@@ -272,7 +344,7 @@ ASSUMPTIONS = [
     "builder nodes (force-wound, unvalidated) + Block::create produce the honest block for a branch",
     "handler-atomic scheduling (add_block holds the blockchain write lock for its whole body)",
     "checkpoints, spv/browser mode, ghost blocks and issuance-file writing are off",
-    "genesis period 100 (no purge inside these scenarios)",
+    "genesis period 100 (no purge inside these scenarios) except in the long-chain leg of C05",
 ]
 
 
